@@ -398,6 +398,10 @@ fn explore(ctx: &Ctx, rep: &mut Report) {
             s.brks = vec![ygen::Brk::Lf];
             s.what.push_str(" [C29 quick: LF only]");
         }
+        for s in spaces.iter_mut().filter(|s| s.name == "styles/n=3") {
+            s.wraps = vec![ygen::Wrap::None];
+            s.what.push_str(" [C29 quick: no wrapper]");
+        }
     }
     let dump_mod: u64 = ctx.arg("--dump-mod").and_then(|s| s.parse().ok()).unwrap_or(0);
     if let Some(p) = ctx.arg("--dump-cases") {
